@@ -168,3 +168,78 @@ func VerifStream() {
 		}
 	}
 }
+
+// vnFixedReader delivers at most ch bytes per Read.
+type vnFixedReader struct {
+	data []byte
+	off  int
+	ch   int
+}
+
+func (r *vnFixedReader) Read(p []byte) (int, error) {
+	if r.off >= len(r.data) {
+		return 0, io.EOF
+	}
+	k := len(r.data) - r.off
+	if k > r.ch {
+		k = r.ch
+	}
+	if k > len(p) {
+		k = len(p)
+	}
+	copy(p, r.data[r.off:r.off+k])
+	r.off += k
+	return k, nil
+}
+
+// VerifStreamTokens: longer histories of whole-token operations (take a 1-2 byte token,
+// free some of the shifted bytes, peek ahead) under a reader that delivers fixed small
+// chunks: every token stays intact until enough bytes have been freed.
+func VerifStreamTokens() {
+	n := vParam("N", 6)
+	data := vBytes("d", n)
+	size := vRange("size", vParam("SMIN", 1), vParam("S", 4))
+	ch := vRange("ch", 1, vParam("CH", 2))
+	z := NewStreamLexerSize(&vnFixedReader{data: append([]byte(nil), data...), ch: ch}, size)
+	gp := 0 // absolute position = start (every token is shifted at once)
+	freed := 0
+	var kept []vnKept
+	for step := 0; step < vParam("K", 6); step++ {
+		switch vRange("op", 0, 2) {
+		case 0: // take a token of 1 or 2 bytes
+			l := vRange("len", 1, 2)
+			if gp+l > n {
+				l = n - gp
+			}
+			for j := 0; j < l; j++ {
+				c := z.Peek(0)
+				vAssert(c == data[gp+j], "token-byte")
+				z.Move(1)
+			}
+			b := z.Shift()
+			vAssert(string(b) == string(data[gp:gp+l]), "shift-content")
+			gp += l
+			if l > 0 {
+				kept = append(kept, vnKept{b, append([]byte(nil), b...), gp})
+			}
+		case 1: // free some of the shifted, not yet freed bytes
+			k := vRange("free", 0, gp-freed)
+			z.Free(k)
+			freed += k
+		case 2: // look ahead (may refill)
+			j := vRange("ahead", 0, 2)
+			c := z.Peek(j)
+			if gp+j < n {
+				vAssert(c == data[gp+j], "peek-value")
+			} else {
+				vAssert(c == 0, "peek-past-end-nonzero")
+			}
+		}
+		for _, k := range kept {
+			if freed < k.end {
+				vAssert(string(k.b) == string(k.copy), "unfreed-token-overwritten")
+			}
+		}
+	}
+	vReach("tokens")
+}
